@@ -136,11 +136,15 @@ func c02runTx(c *engine.Ctx, p *engine.Prog) {
 		return
 	}
 	g := f.Graph()
-	multiWrite := f.CallsTo("tm2/pkg/store/types.(MultiStore).MultiWrite", ".MultiWrite")
+	// Commit points are searched through in-package helpers (depth 2), so that
+	// extracting the commit/rollback tail into a helper does not hide it.
+	multiWrite := f.DeepCallsTo(2, "tm2/pkg/store/types.(MultiStore).MultiWrite", ".MultiWrite")
+	writeCps := f.DeepCallsTo(2, "tm2/pkg/store/types.(Checkpointable).WriteCheckpoint")
 	var deliverCommits, checkCommits []*engine.Site
-	for _, s := range multiWrite {
+	var deliverDeep []engine.DeepSite
+	for _, d := range multiWrite {
 		isCheck := false
-		for _, gt := range g.Gates(s) {
+		for _, gt := range d.DeepGates() {
 			if gt.OnTrue && engine.MentionsName(gt.Cond, "RunTxModeCheck") {
 				if b, ok := ast.Unparen(gt.Cond).(*ast.BinaryExpr); ok && b.Op == token.EQL {
 					isCheck = true
@@ -148,9 +152,10 @@ func c02runTx(c *engine.Ctx, p *engine.Prog) {
 			}
 		}
 		if isCheck {
-			checkCommits = append(checkCommits, s)
+			checkCommits = append(checkCommits, d.Outer)
 		} else {
-			deliverCommits = append(deliverCommits, s)
+			deliverCommits = append(deliverCommits, d.Outer)
+			deliverDeep = append(deliverDeep, d)
 		}
 	}
 	c.Floor("commit-gate", len(deliverCommits), 1)
@@ -163,30 +168,47 @@ func c02runTx(c *engine.Ctx, p *engine.Prog) {
 	endHook := f.CallsTo("field.endTxHook")
 	beginHook := f.CallsTo("field.beginTxHook")
 
-	// commit-gate: deliver-mode MultiWrite only under result.IsOK(), other branch writes the checkpoint.
-	for _, s := range deliverCommits {
+	// commit-gate: deliver-mode MultiWrite only when <result>.IsOK() holds (either
+	// `if r.IsOK() { commit }` or `if !r.IsOK() { rollback; return }; commit`), and
+	// the other side of that same test flushes only the checkpoint.
+	for _, d := range deliverDeep {
+		s := d.Outer
 		ok, why := false, "MultiWrite is not gated by result.IsOK()"
-		for _, gt := range g.Gates(s) {
-			if gt.OnTrue && condCallsMethod(gt.Cond, "IsOK") && len(engine.Atoms(gt.Cond)) == 1 && !isNot(gt.Cond) {
-				ok, why = true, "gated by `"+engine.ExprString(gt.Cond)+"`"
-				// failure branch flushes only the checkpoint
-				elseOK := false
-				for _, w := range f.CallsTo("tm2/pkg/store/types.(Checkpointable).WriteCheckpoint") {
-					if w.Deferred {
-						continue
-					}
-					for _, g2 := range g.Gates(w) {
-						if g2.Block == gt.Block && !g2.OnTrue {
-							elseOK = true
-						}
+		for _, gt := range d.DeepGates() {
+			if !deepCondCallsMethod(d, gt.Cond, "IsOK") || len(engine.Atoms(gt.Cond)) != 1 {
+				continue
+			}
+			if positive := gt.OnTrue != isNot(gt.Cond); !positive {
+				why = "MultiWrite is reached when the result is NOT ok (`" + engine.ExprString(gt.Cond) + "`)"
+				continue
+			}
+			ok, why = true, "gated by `"+engine.ExprString(gt.Cond)+"`"
+			// failure side of the same test flushes only the checkpoint
+			elseOK := false
+			for _, w := range writeCps {
+				if w.Outer.Deferred {
+					continue
+				}
+				for _, g2 := range w.DeepGates() {
+					if g2.Block == gt.Block && g2.OnTrue != gt.OnTrue {
+						elseOK = true
 					}
 				}
-				c.Check("commit-gate", RT+" failure branch WriteCheckpoint", s.Pos(), elseOK, "the !IsOK() branch must flush only the checkpoint (ante writes)")
 			}
+			c.Check("commit-gate", RT+" failure branch WriteCheckpoint", s.Pos(), elseOK, "the !IsOK() side of the commit test must flush only the checkpoint (ante writes)")
 		}
 		c.Check("commit-gate", RT+" MultiWrite under IsOK", s.Pos(), ok, why)
 		for _, r := range runMsgs {
 			c.Check("order", RT+" runMsgs before MultiWrite", s.Pos(), g.Dominates(r, s), "runMsgs must dominate the deliver commit")
+		}
+		// inside a helper nothing may run after the commit either
+		if d.Inner != d.Outer {
+			h := d.Inner.Fn
+			for _, x := range h.Calls() {
+				if x != d.Inner && !x.Deferred && h.Graph().ReachableAfter(d.Inner, x) {
+					c.Check("commit-last", RT+" no call after MultiWrite (in "+h.Name+"): "+x.CalleeName(), x.Pos(), false, "a call executes after the deliver commit; a panic there would fail a committed tx")
+				}
+			}
 		}
 	}
 
@@ -468,29 +490,31 @@ func c02cache(c *engine.Ctx, p *engine.Prog) {
 	const CS = "tm2/pkg/store/cache.(*cacheStore)."
 	if f := c.MustFunc(CS + "WriteCheckpoint"); f != nil {
 		g := f.Graph()
-		wl := f.CallsTo(CS + "writeLocked")
+		wl := engine.Outers(f.DeepCallsTo(2, CS+"writeLocked"))
 		c.Floor("restore-both", len(wl), 1)
 		for _, pair := range [][2]string{{"cache", "checkpointCache"}, {"chargedGas", "checkpointChargedGas"}} {
-			ok := false
-			engine.InspectBody(f, func(x ast.Node) {
+			// the restoring assignment, possibly inside an in-package helper called from here
+			assigns := f.DeepFind(2, func(fn *engine.Fn, x ast.Node) bool {
 				as, isAs := x.(*ast.AssignStmt)
 				if !isAs || len(as.Lhs) != 1 || len(as.Rhs) != 1 {
-					return
+					return false
 				}
 				l, lok := as.Lhs[0].(*ast.SelectorExpr)
 				r, rok := as.Rhs[0].(*ast.SelectorExpr)
-				if lok && rok && l.Sel.Name == pair[0] && r.Sel.Name == pair[1] {
-					if st := f.SiteOf(as); st != nil {
-						all := true
-						for _, w := range wl {
-							if !g.Dominates(st, w) {
-								all = false
-							}
-						}
-						ok = all
+				return lok && rok && l.Sel.Name == pair[0] && r.Sel.Name == pair[1]
+			})
+			ok := len(assigns) > 0
+			for _, w := range wl {
+				dom := false
+				for _, a := range assigns {
+					if a.Outer != w && g.Dominates(a.Outer, w) {
+						dom = true
 					}
 				}
-			})
+				if !dom {
+					ok = false
+				}
+			}
 			c.Check("restore-both", CS+"WriteCheckpoint restores "+pair[0], f.Pos(), ok, "store."+pair[0]+" = store."+pair[1]+" must dominate writeLocked()")
 		}
 	}
@@ -722,4 +746,61 @@ func c02gno(c *engine.Ctx, p *engine.Prog) {
 		}
 		c.Check("oog-repanic", f.Name, f.Pos(), ok, "tx-mode recover must pass repanicOutOfGas = true")
 	}
+}
+
+// deepCondCallsMethod reports whether cond calls the named method, directly or
+// through an identifier that stands for such a call: a local with a single
+// definition `ok := r.IsOK()`, or a parameter of the helper on d's chain whose
+// argument at the call site is such a call (`commit(ms, cp, r.IsOK())`).
+func deepCondCallsMethod(d engine.DeepSite, cond ast.Expr, name string) bool {
+	if condCallsMethod(cond, name) {
+		return true
+	}
+	found := false
+	check := func(fn *engine.Fn, call *ast.CallExpr) {
+		ast.Inspect(cond, func(n ast.Node) bool {
+			id, ok := n.(*ast.Ident)
+			if !ok || found {
+				return !found
+			}
+			obj := fn.Info().ObjectOf(id)
+			if obj == nil {
+				return true
+			}
+			// single-definition local
+			var def ast.Expr
+			ndef := 0
+			engine.InspectBody(fn, func(x ast.Node) {
+				if as, ok := x.(*ast.AssignStmt); ok && len(as.Lhs) == len(as.Rhs) {
+					for i, l := range as.Lhs {
+						if engine.ObjOf(fn.Info(), l) == obj {
+							ndef++
+							def = as.Rhs[i]
+						}
+					}
+				}
+			})
+			if ndef == 1 && def != nil && condCallsMethod(def, name) {
+				found = true
+			}
+			// parameter of the helper → argument at the call
+			if call != nil && fn.Type.Params != nil {
+				k := 0
+				for _, fld := range fn.Type.Params.List {
+					for _, nm := range fld.Names {
+						if fn.Info().ObjectOf(nm) == obj && k < len(call.Args) && condCallsMethod(call.Args[k], name) {
+							found = true
+						}
+						k++
+					}
+				}
+			}
+			return !found
+		})
+	}
+	check(d.Outer.Fn, nil)
+	if d.Inner != d.Outer && len(d.Chain) == 1 {
+		check(d.Chain[0], d.Outer.Call)
+	}
+	return found
 }
